@@ -111,6 +111,10 @@ class FsSeam:
             return repr(path)
         if isinstance(p, bytes):
             p = p.decode("utf-8", "replace")
+        if ".." in p.split(_real_os.sep):
+            # a `..` after a symlinked directory: the OS does not resolve it lexically, and neither must the log
+            d_, b_ = _real_os.path.split(p)
+            p = _real_os.path.join(_real_os.path.realpath(d_ or "."), b_)
         ap = _real_os.path.abspath(p)
         if ap == self.root:
             return "."
@@ -461,7 +465,9 @@ def make_tempfile(seam: FsSeam):
             p = _real_os.path.join(base, name)
             try:
                 _real_os.mkdir(p, 0o700)
-                return p
+                # as the real function does since Python 3.12: the LEXICALLY normalised absolute spelling is returned
+                # (which names another directory when `dir` has a `..` after a symlink)
+                return _real_os.path.abspath(p) if sys.version_info >= (3, 12) else p
             except FileExistsError:
                 continue
 
